@@ -559,7 +559,10 @@ def gen_run(rng, tier):
             rng, ["expr", "expr", "stmt", "stmt", "nullable", "lexamb", "rec", "amb", "random"]
         )
         versions = [{"g.pg": t} for t in sc["texts"]]
-        recognizers = sc["recognizers"]
+        # recognizers are Python callables given in code, not files: no cache can
+        # know that they changed, and the property does not list that situation;
+        # so one recognizer binding is used for all versions of the grammar text
+        recognizers = [sc["recognizers"][0]] * len(versions)
         probes = []
         for v in range(len(versions)):
             probes.append(pool.gen_input(rng, sc, version=v, p_damage=0.0)[0])
